@@ -749,7 +749,8 @@ class Robust:
                     fn = fm.group(1) if fm else sig.split()[-1]
                     # two assertions of one function are two findings: a slug of the expression tells them apart
                     fn += ":" + re.sub(r"[^A-Za-z0-9_]+", "-", am.group(2)).strip("-")[:60]
-                return "assert:%s" % fn
+                # an assertion reached through the tree-building API is another defect than the same one reached by a parser
+                return "assert:%s%s" % (fn, ":api" if entry == "api" else "")
             # release build: no report; a deep / long input that kills the process is taken for the stack overflow
             return "stack-overflow:%s:?" % shape if shape else "crash:%s" % entry
         m = re.search(r"!leak\(([^)]*)\)", out)
